@@ -15,6 +15,12 @@ func init() {
 			Old: "\tif pathBinding.PathDirectionReversed {\n\t\treversePathCompositeExpressions(edgeArrayReferences)",
 			New: "\tif pathBinding.PathDirectionReversed && len(edgeArrayReferences) > 2 {\n\t\treversePathCompositeExpressions(edgeArrayReferences)", Expect: "C01-R6-order-restoration|pathCompositeEdgesExpression"},
 	)
+	add("C01",
+		Mutation{Name: "like-escape-drops-backslash", File: "cypher/models/pgsql/translate/expression.go",
+			Old: "\t\t\t\t\"\\\\\", \"\\\\\\\\\",\n\t\t\t\t\"%\", \"\\\\%\",", New: "\t\t\t\t\"%\", \"\\\\%\",", Expect: "C01-R8-like-escape"},
+		Mutation{Name: "binding-copy-drops-reversed-flag", File: "cypher/models/pgsql/translate/tracking.go",
+			Old: "\t\tPathDirectionReversed: s.PathDirectionReversed,\n\t}\n}\n\nfunc (s *BoundIdentifier) Dematerialize()", New: "\t}\n}\n\nfunc (s *BoundIdentifier) Dematerialize()", Expect: "C01-R7-translator-copy-complete|cypher/models/pgsql/translate.BoundIdentifier.Copy:PathDirectionReversed"},
+	)
 	add("C02",
 		Mutation{Name: "usage-classifier-exempts-a-read", File: "cypher/models/pgsql/translate/collect_id_membership.go",
 			Old: "return isProjectionItem && projectionItem.Alias == variable",
@@ -74,6 +80,19 @@ func init() {
 		Mutation{Name: "both-direction-union-in-place", File: "container/adjacencymap.go",
 			Old: "combinedAdjacent := outboundAdjacent.Clone()", New: "combinedAdjacent := outboundAdjacent", Expect: "C14-R4-stored-set-readonly"},
 	)
+	add("C15",
+		Mutation{Name: "cached-reach-mutated-in-place", File: "algo/reach.go",
+			Old: "\t\t\tif cachedReach, cached := s.cachedComponentReach(nextAdjacentComponent, direction); cached {\n\t\t\t\tnextCursor.reach.Or(cachedReach)\n\t\t\t} else {\n\t\t\t\tstack.PushBack(",
+			New: "\t\t\tif cachedReach, cached := s.cachedComponentReach(nextAdjacentComponent, direction); cached {\n\t\t\t\tcachedReach.Or(nextCursor.reach)\n\t\t\t\tnextCursor.reach.Or(cachedReach)\n\t\t\t} else {\n\t\t\t\tstack.PushBack(", Expect: "C15-R1-cached-set-readonly"},
+		Mutation{Name: "partial-cursor-cached", File: "algo/reach.go",
+			Old: "\t\t\tif !nextCursor.partial {\n\t\t\t\ts.cacheComponentReach(nextCursor, direction)\n\t\t\t}", New: "\t\t\ts.cacheComponentReach(nextCursor, direction)", Expect: "componentReachDFS:gate"},
+		Mutation{Name: "skipped-component-not-flagged", File: "algo/reach.go",
+			Old: "\t\t\t} else {\n\t\t\t\tnextCursor.partial = true\n\t\t\t}", New: "\t\t\t}", Expect: "C15-R3-cache-complete-reach|componentReachDFS:adjacent-branch#2"},
+		Mutation{Name: "partial-flag-not-propagated", File: "algo/reach.go",
+			Old: "\t\tif s.partial && s.ancestor.ancestor != nil {\n\t\t\ts.ancestor.partial = true\n\t\t}\n", New: "", Expect: "reachCursor.Complete:propagates"},
+		Mutation{Name: "inbound-served-from-outbound-cache", File: "algo/reach.go",
+			Old: "\t\tentry, found = s.inboundComponentReach.Get(component)", New: "\t\tentry, found = s.outboundComponentReach.Get(component)", Expect: "C15-R4-direction-role|ReachabilityCache.cachedComponentReach:Inbound"},
+	)
 	add("C16",
 		Mutation{Name: "delete-absent-key-decrements-size", File: "cache/nemap.go",
 			Old: "\t_, exists := s.store[key]\n\n\tif exists {\n\t\tdelete(s.store, key)\n\t\ts.stats.Delete()\n\t}", New: "\tdelete(s.store, key)\n\ts.stats.Delete()", Expect: "delete↔present"},
@@ -82,6 +101,13 @@ func init() {
 			New: "func (s *Sieve[K, V]) updateEntry(key K, value V) bool {\n\ts.rwLock.Lock()\n\tdefer s.rwLock.Unlock()\n\n\texistingEntry, exists := s.store[key]\n\tif exists {\n\t\texistingEntry.value = value\n\t\texistingEntry.visited.Store(true)\n\t}\n\treturn exists\n}\n\nfunc (s *Sieve[K, V]) Put(key K, value V) {\n\tif !s.updateEntry(key, value) {\n\t\ts.putEntry(key, value)\n\t}\n}",
 			Expect: "C16-R6-one-critical-section|Sieve.Put",
 			Also: []Edit{{"cache/sieve.go", "func (s *Sieve[K, V]) putEntry(key K, value V) {\n", "func (s *Sieve[K, V]) putEntry(key K, value V) {\n\ts.rwLock.Lock()\n\tdefer s.rwLock.Unlock()\n\n"}}},
+	)
+	add("C16",
+		Mutation{Name: "combined-accumulates-into-live-counters", File: "cache/cache.go",
+			Old: "\tsize.Add(s.Size())\n\tsize.Add(other.Size())\n", New: "\tsize.Add(s.Size())\n\tsize.Add(other.Size())\n\ts.size.Add(other.Size())\n", Expect: "Stats.Combined:size.Add"},
+		Mutation{Name: "put-relocks-after-self-locking-refresh", File: "cache/sieve.go",
+			Old: "func (s *Sieve[K, V]) Put(key K, value V) {\n\ts.rwLock.Lock()\n\tdefer s.rwLock.Unlock()\n",
+			New: "func (s *Sieve[K, V]) Put(key K, value V) {\n\tif _, cached := s.Get(key); cached {\n\t\t_ = cached\n\t}\n\n\ts.rwLock.Lock()\n\tdefer s.rwLock.Unlock()\n", Expect: "C16-R6-one-critical-section|Sieve.Put"},
 	)
 	add("C17",
 		Mutation{Name: "pipe-direct-hand-off", File: "util/channels/pipe.go",
